@@ -116,6 +116,19 @@ def _run_case(case):
         return Outcome(None, first.nontrivial, list(first.classes) + ["second-act"])
 
 
+def _empty_nodes(node, prefix):
+    out = []
+    if isinstance(node, dict):
+        for k, v in node.items():
+            if isinstance(v, dict) and b"" not in v:
+                name = k.decode("utf-8", "replace") if isinstance(k, bytes) else str(k)
+                if not v:
+                    out.append("/".join(prefix + [name]))
+                else:
+                    out += _empty_nodes(v, prefix + [name])
+    return out
+
+
 def judge(m, tree, P):
     info = m.info
     if info.get(b"piece length") != P:
@@ -130,6 +143,11 @@ def judge(m, tree, P):
     if listed != exp:
         return Outcome(Violation("C02:tree-mismatch", "file tree leaves != files on disk: missing %r extra %r" % (
             [e for e in exp if e not in listed][:3], [e for e in listed if e not in exp][:3])), True)
+    # "mirrors the content directory exactly": a node without any file below it claims a directory the content does not have
+    # (generated trees have no empty directories; a broken link, a FIFO or a socket is not one)
+    phantom = _empty_nodes(info.get(b"file tree"), [])
+    if phantom:
+        return Outcome(Violation("C02:phantom-directory-node", "file tree has empty directory node(s) %r that no directory of the content corresponds to" % (phantom[:3],)), True)
     classes = set()
     exp_layers = {}
     for p, ln, root, keys in leaves:
